@@ -531,9 +531,13 @@ var c02TDests = []c02TDest{
 	{"string", func() interface{} { return new(string) }},
 	{"bool", func() interface{} { return new(bool) }},
 	{"float", func() interface{} { return new(float64) }},
+	{"any", func() interface{} { return new(interface{}) }},
 }
 
-func c02Typed(doc []byte) string {
+// prev (optional, `prev=<hex>`): a document decoded into the same destination type, in the same process, right
+// before `doc` - its verdict is thrown away.  What a decoder answers for `doc` must not depend on it (pooled
+// parsers and buffers carry state from one call to the next).
+func c02Typed(doc []byte, prev []byte, hasPrev bool) string {
 	// compact answer (this stream is large): sonic=<flag per destination: default then std config, in the order
 	// of c02TDests>, rt=<encoding/json's flag per destination>; vlib/props/C02.py knows the order
 	var bits, rbits []byte
@@ -546,6 +550,9 @@ func c02Typed(doc []byte) string {
 			}
 			buf := append(make([]byte, 0, len(doc)), doc...)
 			api := c02API{name: name, run: func(b []byte, st *c02State) c02Res {
+				if hasPrev {
+					_ = cfg.UnmarshalFromString(string(prev), d.mk())
+				}
 				return c02Unm(cfg.UnmarshalFromString(c02Str(b), d.mk()))
 			}}
 			r := c02Guard(api, buf, nil)
@@ -585,7 +592,14 @@ func init() {
 		}
 		doc := unhexArg(a[1])
 		if a[0] == "typed" {
-			return c02Typed(doc)
+			var prev []byte
+			hasPrev := false
+			for _, x := range a[2:] {
+				if strings.HasPrefix(x, "prev=") {
+					prev, hasPrev = unhexArg(x[5:]), true
+				}
+			}
+			return c02Typed(doc, prev, hasPrev)
 		}
 		// tail=<hex>: the document is the front part of a longer buffer that continues with these bytes
 		// (what a caller gets by slicing); no API may look at them
